@@ -317,12 +317,14 @@ def r4_csv(ctx):
     # pass flag
     vals = {b['V_vals'] for _, b in zips}
     vv = vals.pop() if len(vals) == 1 else None
-    pf = [n for n in walk_no_nested(jc.node) if isinstance(n, ast.Assign) and ast.unparse(n.targets[0]) == f'{vv}[{pf_name}]'
-          and isinstance(n.value, ast.IfExp)]
+    # canonical form of  values[pass] = A if c else B :  if c: values[pass] = A  else: values[pass] = B
+    pf = [ast.IfExp(test=n.test, body=n.body[0].value, orelse=n.orelse[0].value) for n in walk_no_nested(jc.node)
+          if isinstance(n, ast.If) and len(n.body) == 1 and len(n.orelse) == 1 and
+          all(isinstance(x, ast.Assign) and ast.unparse(x.targets[0]) == f'{vv}[{pf_name}]' for x in (n.body[0], n.orelse[0]))]
     ok = False
     det = ''
     if len(pf) == 1:
-        v = pf[0].value
+        v = pf[0]
         det = ast.unparse(v)
         d = {k: ast.unparse(x) for k, dd in defs.items() for _, x in dd if isinstance(x, ast.AST)}
         # canonical comparison form:  required <= measured; canonical polarity: `A if rsnr_min == '' else B`
@@ -340,10 +342,11 @@ def r4_csv(ctx):
     ctx.check('R4.csv', f'{site(jc)} pass flag', ok, key(jc, 'pass-flag'),
               'the CSV pass flag is not  worst-channel (else average) SNR-0.1nm >= required OSNR including margin  (equality passes, as in '
               'the planner\'s fixed-mode verdict)', det)
+    from .common import holds_at, resolved
+    # the store into the pass column on the no-path side: the blocking reason (through a local or read in place)
     np_ = [n for n in walk_no_nested(jc.node) if isinstance(n, ast.Assign) and ast.unparse(n.targets[0]) == f'{vv}[{pf_name}]'
-           and not isinstance(n.value, ast.IfExp)]
-    ok = len(np_) == 1 and isinstance(np_[0].value, ast.Name) and \
-        any(ast.unparse(x).endswith("['no-path']['no-path']") for _, x in defs.get(np_[0].value.id, []) if isinstance(x, ast.AST))
+           and any("'no-path' in" in c and not c.startswith('not ') for c in holds_at(n))]
+    ok = len(np_) == 1 and ast.unparse(resolved(defs, np_[0].value)).endswith("['no-path']['no-path']")
     ctx.check('R4.csv', f'{site(jc)} blocked rows', ok, key(jc, 'blocked-rows'), 'a blocked request does not show its blocking reason in the pass column')
     ctx.need('R4.csv', 16)
 
